@@ -1,10 +1,11 @@
 #!/bin/sh
 # usage: dev/confirm_seed.sh <cXX> [seedname]  -- confirm a sub-agent's seeded change in its scratch worktree, then store it under /verif/seeded/
-ID="$1"; NAME="${2:-$1}"; W=/tmp/wt/$ID; S=$W/_seed
+ID="$1"; NAME="${2:-$1}"; W=${WTROOT:-/tmp/wt}/$ID; S=$W/_seed
 [ -f $S/patch.diff ] || { echo "$ID: no patch"; exit 1; }
 cd $W || exit 1
 git checkout -q -- aiohttp
-BASE=/tmp/wt/base_failed.txt
+git checkout -q --detach $(git -C /repo rev-parse HEAD) || { echo "$ID: cannot move worktree to /repo HEAD"; exit 1; }
+BASE=/verif/dev/baseline_failed.txt
 if [ ! -f $BASE ]; then
   /venv/bin/python -m pytest -q -p no:cacheprovider --timeout=900 --continue-on-collection-errors -n 8 2>&1 | grep "^FAILED\|^ERROR" | sort > $BASE
 fi
@@ -12,7 +13,7 @@ PYTHONPATH=$W AIOHTTP_NO_EXTENSIONS=1 /venv/bin/python $S/demo.py > $S/confirm_u
 git apply $S/patch.diff || { echo "$ID: patch does not apply"; exit 1; }
 PYTHONPATH=$W AIOHTTP_NO_EXTENSIONS=1 /venv/bin/python $S/demo.py > $S/confirm_patched.txt 2>&1; P=$?
 /venv/bin/python -m pytest -q -p no:cacheprovider --timeout=900 --continue-on-collection-errors -n 8 2>&1 > $S/confirm_tests.txt
-grep "^FAILED\|^ERROR" $S/confirm_tests.txt | sort > $S/confirm_failed.txt
+grep "^FAILED\|^ERROR" $S/confirm_tests.txt | sed "s| - .*||" | sort > $S/confirm_failed.txt
 TL=$(tail -1 $S/confirm_tests.txt)
 if diff -q $BASE $S/confirm_failed.txt >/dev/null; then T=same; else T=DIFFERENT; fi
 echo "$ID: demo unpatched rc=$U patched rc=$P tests=$T :: $TL"
